@@ -83,6 +83,8 @@ class Gen:
         fl = []
         for _ in range(k):  # no set: iteration order of a set of str follows PYTHONHASHSEED
             f = r.choice(pool)
+            if f.startswith("\\") and r.random() < self.p.get("flag_case_p", 0.0):
+                f = r.choice((f.lower(), f.upper(), f.swapcase()))  # system flags are case-insensitive
             if f not in fl:
                 fl.append(f)
         if r.random() < self.p.get("recent_p", 0.03):
@@ -203,8 +205,8 @@ class Gen:
             return {"s": s, "op": "create", "name": name}
         if kind == "delete":
             name = self.ns_name(existing=r.random() < 0.85)
-            if r.random() < 0.08:
-                name = r.choice(("INBOX", "inbox", "nosuch"))
+            if r.random() < 0.1:
+                name = r.choice(("INBOX", "inbox", "nosuch", "/INBOX", "/inbox", "/InBox"))
             if name in self.names and name.lower() != "inbox" and not any(n.startswith(name + "/") for n in self.names):
                 self.names.remove(name)
                 for x in self.sids:
